@@ -5,6 +5,7 @@ import (
 	"go/constant"
 	"go/token"
 	"go/types"
+	"os"
 	"sort"
 	"strings"
 
@@ -98,6 +99,7 @@ type Frame struct {
 	curBlock *ssa.BasicBlock
 	curLocals map[string]func(*State) SV
 	curLocalAddrs map[string]SV
+	localsSameBlock bool
 }
 
 type retRec struct {
@@ -134,7 +136,13 @@ func (fc *FnCtx) define(prefix, sort, expr string) string {
 	}
 	fc.nfresh++
 	name := fmt.Sprintf("%s!%d", prefix, fc.nfresh)
-	fc.emit(fmt.Sprintf("(define-fun %s () %s %s)", name, sort, expr))
+	if os.Getenv("GOVC_MACRO") != "" {
+		fc.emit(fmt.Sprintf("(define-fun %s () %s %s)", name, sort, expr))
+		return name
+	}
+	// a named constant with a defining equation (not a macro): keeps terms small and usable inside patterns
+	fc.emit(fmt.Sprintf("(declare-const %s %s)", name, sort))
+	fc.emit(fmt.Sprintf("(assert (= %s %s))", name, expr))
 	return name
 }
 
@@ -153,8 +161,14 @@ func (fc *FnCtx) oblige(fr *Frame, kind, label, guard, cond string, pos token.Po
 	if fc.dry {
 		return
 	}
-	if cond == "true" {
-		// trivially discharged; still counted
+	if !strings.Contains(label, "§") && (kind == "post" || kind == "hint" || kind == "inv-init" || kind == "inv-keep" || kind == "pre" || kind == "panic-iff") {
+		if pieces := splitConj(cond, 24); len(pieces) > 1 {
+			for i, pc := range pieces {
+				// pieces proved earlier are assumed for the later ones (rendering asserts every checked obligation)
+				fc.oblige(fr, kind, fmt.Sprintf("%s§%d", label, i), guard, pc, pos, text, props)
+			}
+			return
+		}
 	}
 	key := kind
 	if label != "" {
@@ -620,6 +634,23 @@ func (fr *Frame) walk(entry *State, params []SV, entryGuard string) {
 				continue
 			}
 			li := fr.loops[b]
+			if li == nil && len(fwd) > 1 && fr.top && isReturnOnlyBlock(b) {
+				// a return block that only joins paths: check the postconditions per incoming path (no merged state)
+				for _, e := range fwd {
+					pst := fr.out[e.pred].clone()
+					fr.guard[b] = e.guard
+					for _, in := range b.Instrs {
+						if phi, ok := in.(*ssa.Phi); ok {
+							v := fr.val(phi.Edges[e.pidx])
+							v.typ = phi.Type()
+							fr.vals[phi] = v
+							continue
+						}
+						fr.exec(in, pst, e.guard)
+					}
+				}
+				continue
+			}
 			var gs []string
 			for _, e := range fwd {
 				gs = append(gs, e.guard)
@@ -694,6 +725,23 @@ func (fr *Frame) walk(entry *State, params []SV, entryGuard string) {
 			}
 		}
 	}
+}
+
+func isReturnOnlyBlock(b *ssa.BasicBlock) bool {
+	if len(b.Succs) != 0 || len(b.Instrs) == 0 {
+		return false
+	}
+	if _, ok := b.Instrs[len(b.Instrs)-1].(*ssa.Return); !ok {
+		return false
+	}
+	for _, in := range b.Instrs {
+		switch in.(type) {
+		case *ssa.Phi, *ssa.DebugRef, *ssa.Return, *ssa.RunDefers, *ssa.UnOp, *ssa.Extract:
+		default:
+			return false
+		}
+	}
+	return true
 }
 
 func (fr *Frame) mergeStates(fwd []inEdge) *State {
